@@ -52,7 +52,7 @@ impl Sched {
     }
 }
 
-pub enum Policy { Free, Random(u64), Schedule(Vec<(usize, String)>) }
+pub enum Policy { Free, Random(u64), StartsFirst(u64), Schedule(Vec<(usize, String)>) }
 
 pub struct RunOut { pub events: Vec<Value>, pub result: Result<Vec<(usize, usize)>, String>, pub steps_forced: usize, pub steps_skipped: usize, pub timed_out: bool }
 
@@ -67,7 +67,7 @@ pub fn controlled_run<R: Ent>(a: &SpMat<R>, pt: PivotType, pc: PivotCondition, t
     let handle = std::thread::spawn(move || guarded(|| pool.install(|| find_pivots(&a2, pt, pc))));
     let (mut forced, mut skipped, mut timed_out) = (0usize, 0usize, false);
     if gating {
-        let mut rng: StdRng = rand::SeedableRng::seed_from_u64(match &policy { Policy::Random(s) => *s, _ => 0 });
+        let mut rng: StdRng = rand::SeedableRng::seed_from_u64(match &policy { Policy::Random(s) | Policy::StartsFirst(s) => *s, _ => 0 });
         let mut sched_list: Vec<(usize, String)> = match &policy { Policy::Schedule(v) => v.clone(), _ => vec![] };
         sched_list.reverse();
         let t0 = Instant::now();
@@ -95,6 +95,10 @@ pub fn controlled_run<R: Ent>(a: &SpMat<R>, pt: PivotType, pc: PivotCondition, t
                 match policy { Policy::Random(_) => { // PCT-like: prefer letting "start" gates pile up commits before a parked "lock" proceeds
                         let starts: Vec<usize> = rows.iter().filter(|r| st.parked[r] == "start").cloned().collect();
                         if !starts.is_empty() && rng.gen_bool(0.6) { starts[rng.gen_range(0..starts.len())] } else { rows[rng.gen_range(0..rows.len())] } }
+                    // every task takes its snapshot first; then the write-lock sections run one by one in a random order,
+                    // so every commit after the first is checked against a stale snapshot
+                    Policy::StartsFirst(_) => { let starts: Vec<usize> = rows.iter().filter(|r| st.parked[r] == "start").cloned().collect();
+                        if !starts.is_empty() { starts[0] } else { rows[rng.gen_range(0..rows.len())] } }
                     _ => rows[0] } });
             st.permits.insert(row); sched.cv.notify_all();
             // wait until that thread has passed the gate and reached its next stop
@@ -153,11 +157,12 @@ pub struct Stats { pub events: usize, pub runs: usize, pub retries: usize, pub c
 /// Embed a pattern so that its rows survive the two sequential pre-passes: row 0 is all ones (its pivot
 /// at column 0 makes every column "occupied" for the pre-pass), every pattern row gets a private
 /// non-candidate head entry, and no pattern row touches column 0 (so row 0 is never reached).
-fn embed<R: Ent>(pat: &[(usize, usize)], m: usize, n: usize, noncand: &R) -> SpMat<R> where for<'x> &'x R: RingOps<R> {
+fn embed<R: Ent>(pat: &[(usize, usize)], m: usize, n: usize, noncand: &R) -> SpMat<R> where for<'x> &'x R: RingOps<R> { embed_c(pat, &pat.iter().cloned().collect(), m, n, noncand) }
+fn embed_c<R: Ent>(pat: &[(usize, usize)], cands: &HashSet<(usize, usize)>, m: usize, n: usize, noncand: &R) -> SpMat<R> where for<'x> &'x R: RingOps<R> {
     let cols = 1 + m + n;
     let mut es: Vec<(usize, usize, R)> = (0..cols).map(|j| (0, j, R::one())).collect();
     for r in 0..m { es.push((1 + r, 1 + r, noncand.clone())); }
-    for &(r, c) in pat { es.push((1 + r, 1 + m + c, R::one())); }
+    for &(r, c) in pat { es.push((1 + r, 1 + m + c, if cands.contains(&(r, c)) { R::one() } else { noncand.clone() })); }
     SpMat::from_entries((1 + m, cols), es)
 }
 
@@ -172,29 +177,32 @@ fn run_type<R: Ent>(a: &Args, salt: u64, t: &mut Tracer, st: &mut Stats, schedul
     // A: TLC behaviours (pattern + schedule) forced on the real threads
     for s in schedules {
         let pat: Vec<(usize, usize)> = s["ent"].as_array().unwrap().iter().map(|p| (p[0].as_u64().unwrap() as usize - 1, p[1].as_u64().unwrap() as usize - 1)).collect();
-        let (m, n) = (4usize, 4usize);
-        let mat = embed::<R>(&pat, m, n, &noncand);
+        let cands: HashSet<(usize, usize)> = s["cand"].as_array().unwrap().iter().map(|p| (p[0].as_u64().unwrap() as usize - 1, p[1].as_u64().unwrap() as usize - 1)).collect();
+        let (m, n) = (s["m"].as_u64().unwrap() as usize, s["n"].as_u64().unwrap() as usize);
+        let mat = embed_c::<R>(&pat, &cands, m, n, &noncand);
         let sch: Vec<(usize, String)> = s["hist"].as_array().unwrap().iter().map(|h| (h[0].as_u64().unwrap() as usize, h[1].as_str().unwrap().to_string())).collect(); // pattern row r is matrix row r (0-based r+1-1 .. +1 for the dense row)
         let out = controlled_run(&mat, PivotType::Rows, PivotCondition::One, 8, Policy::Schedule(sch));
         st.forced += out.steps_forced; st.skipped += out.steps_skipped;
         emit_run(t, &mat, PivotType::Rows, PivotCondition::One, &out, json!({"kind":"tlc-schedule"}), st);
     }
     // B: seeded random matrices and schedules
-    let n_runs = if a.thorough() { 160 } else { 14 };
+    let n_runs = if a.thorough() { 240 } else { 36 };
     for k in 0..n_runs {
         let pt = if rng.gen_bool(0.7) { PivotType::Rows } else { PivotType::Cols };
         let pc = match rng.gen_range(0..4) { 0 => PivotCondition::AnyUnit, 1 => PivotCondition::Weight(1.5), _ => PivotCondition::One };
         let mat: SpMat<R> = if k % 2 == 0 {
             // many rows for the parallel phase: sparse pattern embedded behind a dense row
             let (m, n) = (rng.gen_range(2..if a.thorough() { 14 } else { 9 }), rng.gen_range(2..if a.thorough() { 12 } else { 8 }));
-            let mut pat = vec![]; for r in 0..m { for c in 0..n { if rng.gen_bool(0.3) { pat.push((r, c)); } } }
+            let mut pat = vec![]; let pd = [0.25, 0.4, 0.6][rng.gen_range(0..3)]; for r in 0..m { for c in 0..n { if rng.gen_bool(pd) { pat.push((r, c)); } } }
             let e = embed::<R>(&pat, m, n, &noncand);
             // sprinkle non-candidate and unit entries inside the pattern block
-            let mut d = sp_dense(&e); for r in 1..=m { for c in (1 + m)..(1 + m + n) { if !num_traits::Zero::is_zero(&d[r][c]) { if rng.gen_bool(0.25) { d[r][c] = noncand.clone(); } else { d[r][c] = R::rnd_unit(&mut rng); } } } }
+            let mut d = sp_dense(&e); for r in 1..=m { for c in (1 + m)..(1 + m + n) { if !num_traits::Zero::is_zero(&d[r][c]) { if rng.gen_bool(0.4) { d[r][c] = noncand.clone(); } else { d[r][c] = R::rnd_unit(&mut rng); } } } }
             let e = sp_from_dense(&d, 1 + m, 1 + m + n, &|_, _| false);
             if pt == PivotType::Cols { e.transpose() } else { e }
         } else { let (m, n) = (rng.gen_range(1..if a.thorough() { 30 } else { 12 }), rng.gen_range(1..if a.thorough() { 36 } else { 14 })); let dens = [0.08, 0.2, 0.4][rng.gen_range(0..3)]; rand_sparse::<R>(&mut rng, m, n, dens) };
-        let (policy, threads, kind) = match k % 5 { 0 => (Policy::Free, [1usize, 2, 3, 8, 16][rng.gen_range(0..5)], "free"), _ => (Policy::Random(rng.gen()), [2usize, 3, 8, 16][rng.gen_range(0..4)], "random-gates") };
+        let (policy, threads, kind) = match k % 6 { 0 => (Policy::Free, [1usize, 2, 3, 8, 16][rng.gen_range(0..5)], "free"),
+            1 | 3 => (Policy::Random(rng.gen()), [2usize, 3, 8, 16][rng.gen_range(0..4)], "random-gates"),
+            _ => (Policy::StartsFirst(rng.gen()), 16, "all-snapshots-first") };
         let out = controlled_run(&mat, pt, pc, threads, policy);
         emit_run(t, &mat, pt, pc, &out, json!({"kind": kind, "threads": threads, "pt": format!("{:?}", pt), "pc": format!("{:?}", pc)}), st);
     }
